@@ -1732,7 +1732,7 @@ impl World {
                 if !dmg.contains_key(&k) {
                     continue;
                 }
-                match g.below(6) {
+                match g.below(7) {
                     0 => {
                         let v = dmg.get_mut(&k).unwrap();
                         if !v.is_empty() {
@@ -1794,6 +1794,22 @@ impl World {
                         };
                         desc.push(format!("inject {}", name));
                         dmg.entry(name).or_insert(body);
+                    }
+                    6 => {
+                        // a valid block's bytes stored once more under another index (digest right, index wrong)
+                        let blocks: Vec<&String> = keys.iter().filter(|k| k.ends_with(".delta")).collect();
+                        if !blocks.is_empty() {
+                            let b = (*g.pick(&blocks)).clone();
+                            let stem = b.trim_end_matches(".delta");
+                            let mut it = stem.splitn(2, '-');
+                            let (i0, d0) = (it.next().unwrap_or("1").parse::<u32>().unwrap_or(1), it.next().unwrap_or(""));
+                            let i1 = if g.chance(1, 2) { i0 + 1 + g.below(3) as u32 } else { 1 + (i0 + g.below(5) as u32) % 9 };
+                            if i1 != i0 {
+                                let name = format!("{}-{}.delta", i1, d0);
+                                desc.push(format!("copy {} as {}", b, name));
+                                dmg.entry(name).or_insert(items[&b].clone());
+                            }
+                        }
                     }
                     _ => {
                         // replace an item by another valid item's bytes
